@@ -288,6 +288,45 @@ func (r *xRef) eval(n *xNode) []any {
 		}
 		return []any{last}
 	}
+	if n.kind == xCompound {
+		// a compound is flat in the source (a$l$@e has three parts): its parts
+		// are evaluated in order and combined left to right
+		var parts []*xNode
+		var flatten func(m *xNode)
+		flatten = func(m *xNode) {
+			if m.kind == xCompound {
+				flatten(m.a)
+				flatten(m.b)
+			} else {
+				parts = append(parts, m)
+			}
+		}
+		flatten(n)
+		var vs [][]any
+		for _, p := range parts {
+			v := r.eval(p)
+			if r.err {
+				return nil
+			}
+			vs = append(vs, v)
+		}
+		acc := vs[0]
+		for _, next := range vs[1:] {
+			var out []any
+			for _, x := range acc {
+				for _, y := range next {
+					c, ok := xConcat(x, y)
+					if !ok {
+						r.err = true
+						return nil
+					}
+					out = append(out, c)
+				}
+			}
+			acc = out
+		}
+		return acc
+	}
 	av := r.eval(n.a)
 	if r.err {
 		return nil
@@ -301,18 +340,8 @@ func (r *xRef) eval(n *xNode) []any {
 	case xBraced, xCapture:
 		return both
 	case xCompound:
-		var out []any
-		for _, x := range av {
-			for _, y := range bv {
-				c, ok := xConcat(x, y)
-				if !ok {
-					r.err = true
-					return nil
-				}
-				out = append(out, c)
-			}
-		}
-		return out
+		// handled before the operands are evaluated (see below)
+		return nil
 	case xList:
 		return []any{vals.MakeList(both...)}
 	case xIndex:
